@@ -58,7 +58,7 @@ FT = ["operations", "machines", "jobs"]
 
 def gen_cases(ctx):
     rng = ctx.rng
-    for i in range(ctx.scale(400, 15000)):
+    for i in range(ctx.scale(3000, 80000)):
         filt = i % 3 == 2
         c = gen_history_case(rng, classes=gen.POSITIVE_CLASSES if filt else gen.INSTANCE_CLASSES,
                              max_jobs=rng.choice([2, 3, 4, 5]), max_machines=rng.choice([2, 3, 4]),
@@ -81,7 +81,7 @@ def gen_cases(ctx):
             c["observers"] = [{"type": t, "feature_types": None,
                                "form": rng.choice(["class", "enum", "string", "config"])} for t in ts]
         yield c
-    for i in range(ctx.scale(150, 6000)):
+    for i in range(ctx.scale(600, 12000)):
         inst = gen.gen_instance(rng, None, max_jobs=rng.choice([1, 2, 3, 4, 5]), max_machines=rng.choice([1, 2, 3, 4]))
         yield {"kind": "construct", "instance": inst, "seed": rng.randrange(2**31)}
 
